@@ -159,7 +159,7 @@ class Run:
         self.obls = all_obls
         if not all_obls:
             return
-        res = solve.solve_all(all_obls, timeout_ms=timeout_ms, workers=workers)
+        res = solve.solve_all(all_obls, timeout_ms=timeout_ms, workers=workers, long=(self.tier == 'thorough'))
         self.results = res
 
     # ---------------------------------------------------------------- summarise
@@ -394,7 +394,22 @@ def main():
             tail = "" if rep.get("confirmed_on_real_code") else " no-failing-input-found"
             run.violations.append((nm, path, tail))
         elif st == "unknown":
-            run.undecided.append(nm)
+            # undecided by the solvers.  If the instantiated query left a candidate model, replay it on
+            # the real code: a candidate that makes the REAL function break its contract is a genuine
+            # counterexample (reported as a violation with that input); otherwise it stays undecided.
+            confirmed = False
+            if any("candidate-model=yes" in (w.get("detail") or "") for w in info["worst"]) and nm not in known_obl:
+                rep = replay_refuted(run, nm, info, None)
+                if rep.get("confirmed_on_real_code"):
+                    safe = re.sub(r"[^A-Za-z0-9_.=-]+", "_", nm)[:150]
+                    path = os.path.join(ROOT, "replays", pid, safe + ".json")
+                    rep["replay_cmd"] = f"./check {pid} --replay {path}"
+                    rep["note2"] = "solver status unknown; candidate model of the instantiated query confirmed by replay"
+                    json.dump(rep, open(path, "w"), indent=1, default=str)
+                    run.violations.append((nm, path, ""))
+                    confirmed = True
+            if not confirmed:
+                run.undecided.append(nm)
         elif st == "uncovered":
             run.errors.append(f"vacuity: cover obligation {nm} is unsatisfiable")
         elif st == "cover-unknown":
